@@ -125,6 +125,8 @@ def classify(line):
         return {"ev": "Out", "kind": "id", "what": t[1] if len(t) > 1 else ""}
     if line.startswith("info string book move"):
         return {"ev": "Out", "kind": "book"}
+    if t[0] == "info" and len(t) >= 2 and t[1] == "pv":
+        return {"ev": "Out", "kind": "pv", "pv": [list(x) for x in t[2:]]}
     if t[0] == "info":
         return {"ev": "Out", "kind": "info"}
     return {"ev": "Out", "kind": "other", "text": line[:80]}
